@@ -1156,7 +1156,7 @@ func (f *Facts) json() []byte {
 	}
 	doc := "methods=[[GET Query] [HEAD Query]] types=[[application/json JSON] [application/x-www-form-urlencoded Form]] default=Query sep=\";\" uniform=true"
 	if got := fmt.Sprintf("methods=%v types=%v default=%s sep=%q uniform=%v", f.HTTPMethods, f.HTTPTypes, f.HTTPDefault, f.HTTPCutSep, f.HTTPUniform); got != doc {
-		fails = append(fails, failed{"HTTPDispatch", "C15", "zhttp.Request with marker parsers over a grid of (method, Content-Type) requests: observed " + got + "; documented " + doc})
+		fails = append(fails, failed{"HTTPDispatch", "C15 C10 C14", "zhttp.Request with marker parsers over a grid of (method, Content-Type) requests: observed " + got + "; documented " + doc})
 	}
 	out, _ := json.MarshalIndent(map[string]any{"facts": f, "failed_probes": fails}, "", " ")
 	return out
